@@ -247,6 +247,12 @@ func c03Byzantine(kind string, w *core.Rand) map[string]string {
 			P = ref.Pt{X: x, Y: y}
 			encPx = new(big.Int).Add(x, ref.SM2P)
 		case "valid-solved", "neg-pub":
+			if kind == "valid-solved" && w.Chance(1, 3) {
+				// a public key nobody holds the private key of: a curve point whose x (or y) has a
+				// structured Montgomery form; the tuple is solved for below all the same
+				x, y := montXPoint(w)
+				P = ref.Pt{X: x, Y: y}
+			}
 		case "r=0", "r=n":
 			r = big.NewInt(0)
 			if kind == "r=n" {
